@@ -5,6 +5,8 @@ import GrpcModel.Model.PickFirst
     update <health 0|1> <shuffle 0|1> <e|a> <endpoints>   endpoints: `4.1+6.2,u.3` (`,` between endpoints,
                                                           `+` inside one; `-` = none); e = as Endpoints, a = as Addresses
     reserr | tick | exitidle | pick | close
+    late                     the callback of the most recently cancelled timer that has not run yet runs now
+                             (it had fired before it was stopped and was waiting for the balancer's mutex)
     sc <id|~k> <S> <err>     (~k = k-th newest SubConn) the channel reports a SubConn state (err: ConnectionError tag, 0 = nil)
     health <id> <S> <err>    the health listener of SubConn id is called
 
@@ -50,6 +52,7 @@ def parseOp (serial : Nat) (fs : List String) : Option Op :=
     pure (.update (← parseBool h) (flatten (← parseBool sh) m (← parseEndpoints eps)))
   | ["reserr"] => some .resErr
   | ["tick"] => some .tick
+  | ["late"] => some .late
   | ["exitidle"] => some .exitIdle
   | ["pick"] => some .pick
   | ["close"] => some .close
@@ -140,6 +143,8 @@ structure Mon where
   hreg : List Nat := []
   /-- address-list positions on which the implementation requested a connection in the running pass -/
   passLog : List Nat := []
+  /-- the state / picker the implementation reported last -/
+  lastPush : Option (ConnState × Picker) := none
 
 structure DSt where
   s : St := {}
@@ -216,6 +221,7 @@ def monitor (d : DSt) (s' : St) (op : Op) (impl : String) : Mon × String :=
               (m, some s!"VIOL {if st == .connecting then "CONNECTING" else "IDLE"} reported while in sticky TRANSIENT_FAILURE (no SubConn became READY){who}")
             else
               let m := match p with | .connErr _ => { m with sticky := true, stickySerial := if m.sticky then m.stickySerial else m.created } | _ => m
+              let m := { m with lastPush := some (st, p) }
               -- a TRANSIENT_FAILURE report ends the first pass: later Connects are re-connections
               go t m (inPass && st != .tf)
     let (m, v) := go io.evs m inPass0
@@ -233,7 +239,19 @@ def monitor (d : DSt) (s' : St) (op : Op) (impl : String) : Mon × String :=
           | some id => if lookup m.delivered id != .ready then some s!"VIOL Pick returned SubConn {id} whose latest state is {(lookup m.delivered id).letter}" else none
           | none => none
         | none => none
-      (m, (v1.orElse fun _ => v2).getD "ok")
+      -- while READY is the reported state the READY SubConn is the only SubConn
+      let v3 : Option String := match m.lastPush, op with
+        | _, .close => none
+        | some (.ready, .ready id), _ =>
+          match m.live.find? (·.1 ≠ id) with
+          | some (other, _) => some s!"VIOL SubConn {other} exists although READY is reported with SubConn {id}"
+          | none => none
+        | _, _ => none
+      -- a closed balancer creates and connects nothing
+      let v4 : Option String :=
+        if d.s.state == .shutdown && io.evs.any (fun e => match e with | .newSc _ _ => true | .connect _ => true | _ => false)
+        then some "VIOL a SubConn was created or connected after Close" else none
+      (m, (((v1.orElse fun _ => v2).orElse fun _ => v3).orElse fun _ => v4).getD "ok")
 
 def step (d : DSt) (fs : List String) (impl : String) : DSt × String × String :=
   match parseOp d.s.scSerial fs with
@@ -243,9 +261,12 @@ def step (d : DSt) (fs : List String) (impl : String) : DSt × String × String 
     --  * states are reported only for SubConns that exist; SHUTDOWN only after Shutdown() was called
     --  * a health update only reaches a listener registered since the SubConn last became READY
     --  * nothing is called on a balancer after Close (the channel drops it together with its picker)
-    let ok : Bool := d.s.state != .shutdown && match op with
+    --    (except the balancer's own timer callbacks, which the channel does not control)
+    let afterClose : Bool := match op with | .late => true | _ => false
+    let ok : Bool := (d.s.state != .shutdown || afterClose) && match op with
       | .sc id x _ => decide (1 ≤ id ∧ id ≤ d.s.scSerial) && (x != .shutdown || (activeSC d.s id).isNone)
       | .health id _ _ => d.m.hreg.contains id && lookup d.m.delivered id == .ready
+      | .late => decide (d.s.lateTimers > 0)
       | _ => true
     if !ok then (d, "bad-op", "-") else
     let (s', out) := PickFirst.step d.s op
